@@ -1,8 +1,8 @@
 SPECIFICATION Spec
 CONSTANTS
   FirstStatuses = {200, 404, 300, 301, 302, 303, 304, 305, 307, 308, 399}
-  NextStatuses = {200, 302, 308}
-  MaxSteps = 3
+  NextStatuses = {200, 404, 301, 302, 303, 307, 308}
+  MaxSteps = 2
   MaxRedirs = {0, 1, 2, 3}
 INVARIANT ResolutionOK
 INVARIANT AuthorityOK
